@@ -16,6 +16,8 @@ ATOMS = ["{{", "}}", "{{{", "}}}", "[[", "]]", "[", "]", "|", "||", "!", "!!", "
          "\u00a0", "\u2003", "\u3000", "\x85", "\x1c", "\u2028", "<div\u00a0class=\"x\">", "</span\u00a0>", "<br\u2003/>", "<b\u3000>",
          "<span class\u00a0=\u2003\"c\">", "</div\x85>", "<ref\u00a0name=a/>", "<li\x1c>", "<DIV>", "</Div >", "<BR/>",
          # constructs whose saved arguments hold a bracket or nowiki placeholder of their own
+         # addresses with other spellings of the scheme
+         "HTTP://x.y", "Https://a.b/c ", "[HTTPS://a.com x]", "hTTp://q.r", "[HTTP://x.y]", "HTTP://", "ftp://x.y", "[ftp://x.y z]", "//x.y",
          "{{a|[b]}}", "[[l|x<nowiki/>y]]", "{{{1|[d]}}}", "<span title=\"{{a|[y]}}\">", "[x y]", "{{a|<nowiki/>}}", "[[a|[b]]]"]
 MAGIC = "\U00102041"
 
@@ -172,6 +174,7 @@ def run(run):
               "== {{a|x}} ==\n", "==[[a]]==\n* i", "==\n", "== ==\n", "=====\n", "== {{\nfoo}} ==", "== [[a|\nb]] ==\n",
               "<math>\n=</math>=", "<div>\n== a </div> ==\n", "<b>x\n=== t</b> ===\n",
               "{{PAGENAME|\u00b2=x}}", "{{lc:A|\u2460=y}}", "{{a|\u00b2=x}}",
+              "HTTP://Example.com", "see Https://a.b/c now", "[HTTPS://a.com x]", "* HTTP://x.y\n", "== hTTp://q.r ==\n", "''HTTP://x.y''",
               "<pre>{{foo|[bar]}}</pre>", "<pre>[[a|b<nowiki/>c]]</pre>", "{{foo|<span title=\"{{x|[y]}}\">z</span>}}",
               "<pre>{{{1|[d]}}} [x y]</pre>", "<nowiki>{{a|[b]}}</nowiki>", "<math>{{a|[b]}}</math>", "<ref>[[l|x<nowiki/>y]]</ref>"]:
         texts.append(t); klass.append("corpus")
